@@ -60,7 +60,7 @@ int main(int argc, char** argv) {
          const double sba = m.get_sin_beta_minus_alpha(), cba = m.get_cos_beta_minus_alpha();
          double es = std::fabs(sba - b.sin_beta_minus_alpha);
          std::string cell = "generic";
-         if (std::fabs(std::fabs(b.sin_beta_minus_alpha) - 1) < 1e-9) { es = std::fabs(std::fabs(sba) - 1); cell = "|sba|=1"; }   // overall sign of (sin,cos) not fixed by cos >= 0 there
+         if (std::fabs(std::fabs(b.sin_beta_minus_alpha) - 1) < 1e-9) { es = std::min(std::fabs(sba - b.sin_beta_minus_alpha), std::fabs(sba + b.sin_beta_minus_alpha)); cell = "|sba|=1"; }   // overall sign of (sin,cos) not fixed by cos >= 0 there
          else if (b.sin_beta_minus_alpha == 0) cell = "sba=0";
          else if (std::fabs(b.sin_beta_minus_alpha) > 0.99) cell = "alignment-region";
          const double gap = b.mH * b.mH - b.mh * b.mh;
